@@ -1,8 +1,89 @@
 import SLModel.Drv.Util
+import SLModel.Core.HttpResp
 open Lean
 namespace SL.Drv.C24
+open SL.Drv SL.Http
 
-/-- stub: no model operations for C24 yet -/
-def handle (_req : Json) : Except String Json := .error "C24: not implemented"
+def endpointOf (s : String) : Except String Endpoint :=
+  match s with
+  | "healthz" => .ok .healthz | "init" => .ok .init | "add" => .ok .add | "bulk" => .ok .bulk
+  | "delete" => .ok .delete | "commit" => .ok .commit | "refresh" => .ok .refresh
+  | "compact" => .ok .compact | "search" => .ok .search | "inspect" => .ok .inspect
+  | "stats" => .ok .stats
+  | _ => .error s!"C24: unknown endpoint {s}"
+
+def routeOf (j : Json) : Except String Route := do
+  match ← getStr j "kind" with
+  | "hit" => return .hit (← endpointOf (← getStr j "endpoint"))
+  | "wrong_method" => return .wrongMethod (← endpointOf (← getStr j "endpoint"))
+  | "unknown_path" => return .unknownPath
+  | k => throw s!"C24: unknown route kind {k}"
+
+def payloadOf (s : String) : Except String Payload :=
+  match s with
+  | "ok" => .ok .ok
+  | "stall" => .ok .stall
+  | "no_json_content_type" => .ok (.rejected .missingJsonContentType)
+  | "syntax_error" => .ok (.rejected .syntaxError)
+  | "data_error" => .ok (.rejected .dataError)
+  | "length_limit" => .ok (.rejected .lengthLimit)
+  | "buffer_error" => .ok (.rejected .bufferError)
+  | _ => .error s!"C24: unknown payload {s}"
+
+def addBodyOf (s : String) : Except String AddBody :=
+  match s with
+  | "docs" => .ok .docs | "empty" => .ok .empty | "bad_line" => .ok .badLine
+  | "read_err" => .ok .readErr | "stall" => .ok .stall
+  | _ => .error s!"C24: unknown add body {s}"
+
+def idxOf (s : String) : Except String IdxState :=
+  match s with
+  | "ready" => .ok .ready | "missing" => .ok .missing | "corrupt" => .ok .corrupt
+  | _ => .error s!"C24: unknown index state {s}"
+
+def coreOf (s : String) : Except String Core :=
+  match s with
+  | "ok" => .ok .ok | "err" => .ok .err | "panic" => .ok .panic
+  | _ => .error s!"C24: unknown core outcome {s}"
+
+def factsOf (j : Json) : Except String Facts := do
+  return {
+    declaredOversize := getBoolD j "declared_oversize" false
+    payload := ← payloadOf (getStrD j "payload" "ok")
+    addBody := ← addBodyOf (getStrD j "add_body" "docs")
+    inputBad := getBoolD j "input_bad" false
+    manifestExists := getBoolD j "manifest_exists" false
+    idx := ← idxOf (getStrD j "idx" "ready")
+    writerErr := getBoolD j "writer_err" false
+    core := ← coreOf (getStrD j "core" "ok") }
+
+def shapeStr : Shape → String
+  | .okJson => "ok_json" | .errorJson => "error_json" | .empty => "empty" | .noResponse => "no_response"
+
+def kindStr : Kind → String
+  | .none => "" | .bodyTooLarge => "body_too_large" | .timeout => "timeout"
+  | .invalidRequest => "invalid_request" | .invalidLimit => "invalid_limit"
+  | .indexMissing => "index_missing" | .openIndex => "open_index" | .indexExists => "index_exists"
+  | .initJoin => "init_join" | .initFailed => "init_failed" | .readBody => "read_body"
+  | .invalidDocument => "invalid_document" | .writerOpen => "writer_open"
+  | .addFailed => "add_failed" | .addJoin => "add_join"
+  | .missingOrInvalidInput => "missing_documents|invalid_document|missing_ids|invalid_id"
+  | .deleteFailed => "delete_failed" | .commitJoin => "commit_join" | .commitFailed => "commit_failed"
+  | .refreshJoin => "refresh_join" | .refreshFailed => "refresh_failed"
+  | .compactJoin => "compact_join" | .compactFailed => "compact_failed"
+  | .searchJoin => "search_join" | .searchFailed => "search_failed"
+
+/-- `{"op":"respond","route":{"kind":"hit","endpoint":"search"},"facts":{…}}` →
+`{"status":n,"shape":"error_json","kind":"search_join","well_formed":b}` -/
+def handle (req : Json) : Except String Json := do
+  let op ← getStr req "op"
+  match op with
+  | "respond" =>
+    let r ← routeOf (← req.getObjVal? "route")
+    let f ← factsOf (← req.getObjVal? "facts")
+    let x := respond r f
+    return Json.mkObj [("status", x.status), ("shape", shapeStr x.shape), ("kind", kindStr x.kind),
+      ("well_formed", wellFormed x)]
+  | _ => throw s!"C24: unknown op {op}"
 
 end SL.Drv.C24
